@@ -12,7 +12,7 @@ def run(ctx):
     rng = random.Random(ctx.seed + 4)
     t0 = time.time()
     N = 8000 if ctx.tier == "quick" else 400000
-    zones_ = ["UTC", "Europe/Paris", "America/Sao_Paulo", "Australia/Lord_Howe", "Pacific/Apia", "America/Havana", None, 19800]
+    zones_ = ["UTC", "Europe/Paris", "America/Sao_Paulo", "Australia/Lord_Howe", "Pacific/Apia", "America/Havana", None, "+05:30"]
     fails = []
     n = 0
     for i in range(N):
@@ -27,6 +27,7 @@ def run(ctx):
                  days=rng.choice((0, 1, -1, 31, -45, rng.randrange(-400, 400))), hours=rng.randrange(-50, 50), minutes=rng.randrange(-100, 100),
                  seconds=rng.randrange(-4000, 4000), microseconds=rng.randrange(-2 * 10 ** 6, 2 * 10 ** 6))
         tz = rng.choice(zones_)
+        tz = pendulum.timezone(19800) if tz == "+05:30" else tz
         try:
             ref = base + relativedelta(**u)
             if not (2 <= ref.year <= 9997):
